@@ -94,7 +94,31 @@ func runC05(w *World) {
 	w.noTickWhile = func() bool { return w.httpInFlight(nil) }
 	w.cut = cutMode(w.knob("cut", 2))
 	n := w.addNode("n1", "10.0.0.1", 9851)
-	main := w.addWebhook("hook0.sim:80", nil)
+	// in a quarter of the runs the receiver of the fence under test refuses one request (the
+	// k-th) with a 500: the notification is to be sent again, and what the receiver ends up
+	// having accepted is still exactly the documented sequence
+	var hookMode func(body string) int
+	if w.knob("hookfault", 4) == 1 {
+		failAt, seen := 1+w.knob("hookfailat", 8), 0
+		hookMode = func(string) int {
+			seen++
+			if seen == failAt {
+				w.stat("fault.webhook_refused_once", 1)
+				return 500
+			}
+			return 200
+		}
+	}
+	main := w.addWebhook("hook0.sim:80", hookMode)
+	accepted := func() int {
+		k := 0
+		for _, d := range main.recv {
+			if d.Status == 200 {
+				k++
+			}
+		}
+		return k
+	}
 	nOther := w.knob("others", 13)
 	for i := 1; i <= nOther; i++ {
 		w.addWebhook(simAddr(fmt.Sprintf("hook%d.sim:80", i)), nil)
@@ -328,6 +352,9 @@ func runC05(w *World) {
 	recvHook := func() []fenceMsg {
 		var out []fenceMsg
 		for _, d := range main.recv {
+			if d.Status != 200 {
+				continue
+			}
 			m, _, err := parseFenceMsg(d.Body)
 			if err != nil {
 				w.violate("C05/format", "webhook body: %v", err)
@@ -360,7 +387,7 @@ func runC05(w *World) {
 		return out
 	}
 	w.Drain(10*time.Second, func() bool {
-		return len(main.recv) >= required && len(sub.stream)-1 >= required && len(live.stream)-1 >= required
+		return accepted() >= required && len(sub.stream)-1 >= required && len(live.stream)-1 >= required
 	})
 	w.Sleep(500 * time.Millisecond)
 	if w.failed() {
